@@ -735,6 +735,11 @@ func (m *mappedFile) newCounter(name string) (v *atomic.Uint64, m1 *mappedFile, 
 		limit := m.load32(m.hdrLen + limitOff)
 		start, end = m.place(limit, name)
 		debugPrintf("place %s at %#x-%#x\n", name, start, end)
+		if start < limit || end < start || round(end, pageSize) < end {
+			// The record would start or end, or its page would end, beyond 4GiB (uint32
+			// overflow): the recorded limit is corrupt.
+			return nil, nil, errCorrupt
+		}
 		if int64(end) > int64(len(m.mapping.Data)) {
 			newM, err := m.extend(end)
 			if err != nil {
